@@ -175,7 +175,18 @@ def _options(fn):
     if d is None:
         raise AnalysisError("C08.R1", "%s: options dict literal (first/last/current) not found" % fn.qual)
     fn._sa_options_name = name_bound_to(fn, d) or "options"
-    return {k.value: v for k, v in zip(d.keys, d.values) if isinstance(k, ast.Constant)}
+    out = {k.value: v for k, v in zip(d.keys, d.values) if isinstance(k, ast.Constant)}
+    # an entry may be a local that only names its value (`last_day = get_last_day_of_month(..)`; `"last": last_day`)
+    fn._sa_option_alias = {}
+    for k_, v_ in list(out.items()):
+        if isinstance(v_, ast.Name):
+            defs = [n for n in iter_own_nodes(fn.node) if isinstance(n, ast.Assign) and len(n.targets) == 1 and isinstance(n.targets[0], ast.Name)
+                    and n.targets[0].id == v_.id]
+            stores = sum(1 for n in iter_own_nodes(fn.node) if isinstance(n, ast.Name) and n.id == v_.id and isinstance(n.ctx, ast.Store))
+            if len(defs) == 1 and stores == 1 and v_.id not in fn.params():
+                out[k_] = defs[0].value
+                fn._sa_option_alias[k_] = v_.id
+    return out
 
 
 def r1(ctx, chk):
@@ -216,7 +227,7 @@ def r1(ctx, chk):
                     for s in h.body:
                         if isinstance(s, ast.Return) and isinstance(s.value, ast.Call) and ast.unparse(s.value.func) == p0 + ".replace":
                             kw = {k.arg: ast.unparse(k.value) for k in s.value.keywords}
-                            ok_fb = kw == {part: "%s['last']" % f._sa_options_name}
+                            ok_fb = kw in ({part: "%s['last']" % f._sa_options_name}, {part: f._sa_option_alias.get("last", "<none>")})
         chk.ob(rule, "%s: replaces %s by options[settings.%s]" % (f.qual, part, setting), ok_main, "",
                key={"function": key, "construct": "replace by option"}, file=f.file, function=f.qual, line=f.node.lineno)
         chk.ob(rule, "%s: a value that does not fit falls back to `last` (clamp)" % f.qual, ok_fb,
